@@ -6,7 +6,7 @@ cd $W || exit 2
 export CARGO_TARGET_DIR=$W/target
 echo "== suite with change"; cargo test --offline --lib 2>&1 | grep -E "^test result" | head -2
 echo "== demo with change"; cargo test --offline --test demo_$P 2>&1 | grep -E "^test result" | head -2
-git stash push -q -- src
+git diff -- src > $W/.seed.diff; git checkout -- src
 echo "== demo without change"; cargo test --offline --test demo_$P 2>&1 | grep -E "^test result" | head -2
-git stash pop -q
+git apply $W/.seed.diff; rm -f $W/.seed.diff
 git diff --stat -- src | tail -1
